@@ -326,7 +326,18 @@ pub open spec fn is_framing_hdr(h: Hdr, mode: SenderMode) -> bool {
 }
 ''')
 
-ITEM('impl<B> Call<(), B>')
+IMPL('impl<B> Call<(), B>')
+FN('without_body', props=['C09', 'C17'], ret='r',
+   ensures=[('aux.Call.without_body', '''r is Ok && r->Ok_0.request.request.same_head(&request) && r->Ok_0.request.request.spec_body() == Some(request.spec_body())
+            && r->Ok_0.request.uri is None && r->Ok_0.request.headers.view().len() == 0 && r->Ok_0.request.unset.view().len() == 0
+            && !r->Ok_0.analyzed && r->Ok_0.state.phase == Phase::SendLine && r->Ok_0.state.reader is None
+            && !r->Ok_0.state.skip_method_body_check && !r->Ok_0.state.stop_on_chunk_boundary && r->Ok_0.wf() && r->Ok_0.state.writer.mode is None && r->Ok_0.state.writer.ended''')])
+FN('with_body', props=['C09', 'C17'], ret='r',
+   ensures=[('aux.Call.with_body', '''r is Ok && r->Ok_0.request.request.same_head(&request) && r->Ok_0.request.request.spec_body() == Some(request.spec_body())
+            && r->Ok_0.request.uri is None && r->Ok_0.request.headers.view().len() == 0 && r->Ok_0.request.unset.view().len() == 0
+            && !r->Ok_0.analyzed && r->Ok_0.state.phase == Phase::SendLine && r->Ok_0.state.reader is None
+            && !r->Ok_0.state.skip_method_body_check && !r->Ok_0.state.stop_on_chunk_boundary && r->Ok_0.wf() && r->Ok_0.state.writer.mode is Chunked && !r->Ok_0.state.writer.ended''')])
+END()
 
 IMPL('impl<State, B> Call<State, B>', raw='''
     /// representation invariant of every call
